@@ -256,6 +256,7 @@ structure Hist where
   startAgain : Option Nat := none    -- position of a second StartAll (scenario `twice`)
   taskAfterAgain : List String := [] -- task requests first seen after it
   startWiths : List Nat := []        -- positions of `op startwith <id>` (scenario `partial`: one per start event)
+  startIds : List String := []       -- the start events fired so far
   answered : Bool := false
   noquiesce : Bool := false
   expiredBefore : Bool := false      -- some wait has returned false so far
@@ -267,7 +268,9 @@ def Hist.line (h : Hist) (pos : Nat) (ws : List String) : Hist :=
   | "op" :: "answer" :: node :: occ :: _ => { h with openTasks := h.openTasks.erase s!"{node}#{occ}" }
   | "op" :: "answered" :: _ => { h with answered := true }
   | "op" :: "startall" :: _ => { h with startPos := if h.startPos.isSome then h.startPos else some pos }
-  | "op" :: "startwith" :: _ => { h with startWiths := h.startWiths ++ [pos] }
+  | "op" :: "startwith" :: id :: _ =>
+    -- (a repeated call for a start event that has fired already is not another start event firing)
+    if h.startIds.contains id then h else { h with startWiths := h.startWiths ++ [pos], startIds := id :: h.startIds }
   | "op" :: "startagain" :: _ => { h with startAgain := some pos }
   | "op" :: "wait" :: id :: phase :: tmo :: _ =>
     { h with waits := h.waits ++ [{ id := id.toNat?.getD 0, phase, tmo, opPos := pos, ceaseBeforeOp := !h.ceasePos.isEmpty }] }
